@@ -75,3 +75,13 @@ CLAIMED['C11'] = (
     'layouts (order, case, spaces, comments, aliases); the implementation round trip incl. the file path is checked on every circuit.',
     NOTE_COMMON + 'Document-level assembly and layout-independence are not proved yet (partial); file IO is exercised through temp files only.',
     'Lean 4 proof (string lemmas: strip/split/find, classification) + exact printer/parser correspondence')
+CLAIMED['C14'] = (
+    'DESIGN.md 5/C14',
+    'Theorems for all circuits (distinct labels, closed operands, accepted arities) and all assignments: each of the ten converter '
+    'rewrites, and into_bench as the fold over a snapshot of the gate map, extend every valuation of the original to the result agreeing '
+    'on all original gates (so the truth table is unchanged, incl. GT(x,x)-shaped gates, L*/R* gates and constants with operands), keep '
+    'inputs/outputs, keep the netlist closed with distinct labels and accepted arities, and leave only bench-basis gate types. The '
+    'model (users-index edits, block bookkeeping, pinned uuid labels) is compared exactly with the code on every run and every '
+    'converted circuit is passed through the Lean well-formedness checker.',
+    NOTE_COMMON + 'Users index / acyclicity / block membership after conversion: exact correspondence + checkWFU, not proved (partial).',
+    'Lean 4 proof (per-rewrite semantic lemma + fold invariant over the snapshot iteration) + exact correspondence incl. users index')
